@@ -60,6 +60,11 @@ KFClasses(s, ep, e) ==
   \* C02-premarked: an object is put while its id already carries a garbage mark: its payload is added
   \* to the container size although it is marked for removal
   \cup (IF e.ev = "Put" /\ s.garb[e.o] # "none" THEN {[name |-> "C02-put-of-premarked-id", fields |-> {"size"}]} ELSE {})
+  \* C02-tombstoned-but-locked: an object that is tombstoned and protected by a live lock at the same time is
+  \* available for the code (finding C01-lock-overrides-tombstone), so a put stores it and counts its payload
+  \* although a tombstone targets it
+  \cup (IF e.ev = "Put" /\ Tombstoned(s, e.o) /\ Locked(s, ep, e.o)
+     THEN {[name |-> "C02-put-of-tombstoned-but-locked-object", fields |-> {"size"}]} ELSE {})
   \* C02-ts-after-mark: a tombstone subtracts the payload of a target that a garbage mark had already subtracted
   \cup (IF e.ev = "Put" /\ Cat[e.o].typ = "TS"
          /\ \E x \in CollectChildren(s, Cat[e.o].tgt) \cup {Cat[e.o].tgt} : s.stored[x] = "phy" /\ s.garb[x] # "none"
